@@ -72,6 +72,15 @@ func (p *PauseController) UnmarshalJSON(data []byte) error {
 	return nil
 }
 
+func (p *PauseController) MarshalJSON() ([]byte, error) {
+	type alias PauseController // Avoid infinite recursion when we call Marshal
+
+	p.lock.RLock()
+	defer p.lock.RUnlock()
+
+	return json.Marshal(&alias{State: p.State, StopMessage: p.StopMessage, FailAfter: p.FailAfter})
+}
+
 func (p *PauseController) GetState() PauseState {
 	p.lock.RLock()
 	defer p.lock.RUnlock()
